@@ -10,7 +10,7 @@ A = real.A
 
 KINDS = ["future_ok", "future_raise", "const", "errorfuture", "task_ok", "task_raise", "task_item",
          "simbatch", "simitem", "debugitem", "debugbatch", "susp_ok", "susp_raise", "susp_yield",
-         "selfcancel_batch", "selfcancel_item"]
+         "selfcancel_batch", "selfcancel_item", "baseexc_batch", "baseexc_item"]
 OPS = ["value", "error", "call", "is_computed", "set_value", "set_error", "reset", "sub_ok", "sub_raise"]
 
 
@@ -52,6 +52,9 @@ class Ref(object):
             self.val, self.err = "0:k", None
         elif k == "debugitem":
             self.val, self.err = "dbg", None
+        elif k in ("baseexc_batch", "baseexc_item"):
+            # the flush body raises a BaseException that is not an Exception
+            self.val, self.err = None, "E:baseexc"
         elif k in ("selfcancel_batch", "selfcancel_item"):
             # the flush body cancels its own batch and returns normally: one outcome, the error
             self.val, self.err = None, "E:selfcancel"
@@ -134,6 +137,23 @@ class _World(object):
             self.f = A.batching.DebugBatchItem("c10d", "dbg")
         elif kind == "debugbatch":
             self.f = A.batching.DebugBatchItem("c10d", "dbg").batch
+        elif kind.startswith("baseexc"):
+            from ..prog import SimBaseError
+
+            class BEBatch(A.BatchBase):
+                def _try_switch_active_batch(self):
+                    pass
+
+                def _flush(self):
+                    runs[0] += 1
+                    raise SimBaseError("E:baseexc")
+
+            class BEItem(A.BatchItemBase):
+                pass
+            b = BEBatch()
+            it = BEItem(b)
+            self.keep = (b, it)
+            self.f = b if kind == "baseexc_batch" else it
         elif kind.startswith("selfcancel"):
             W = self
 
@@ -300,6 +320,10 @@ class C10(object):
                             v = _exc_tag(v) if v is not None else None
                         got = ("V", v)
                     except Exception as e:
+                        got = ("E", _exc_tag(e))
+                    except BaseException as e:
+                        if getattr(e, "tag", None) != "E:baseexc":
+                            raise
                         got = ("E", _exc_tag(e))
                 elif op == "is_computed":
                     exp = ("V", ref.computed)
